@@ -69,8 +69,12 @@ counter does not wrap (`c0 + steps < 2^32`):
 * the values obtained by the atomic steps are `c0+1, c0+2, …` in step order (gap-free, increasing);
 * every message on the wire carries (and its Send returns) a value some atomic step of the same
   sender produced; these values are pairwise distinct over all senders;
-* each sender's values appear on the wire in increasing order. -/
-theorem C18_seq_concurrent (c0 : Nat) (sched : List Nat) (hb : c0 + sched.length < 4294967296) :
+* each sender's values appear on the wire in increasing order.
+
+PARTIAL: proved of the model in which `atomic.AddUint32` is one indivisible step (`cstep`).  Missing:
+that the Go runtime and the hardware provide that atomicity — supported by the N x M concurrent Send
+run of the harness only. -/
+theorem C18_seq_concurrent_partial (c0 : Nat) (sched : List Nat) (hb : c0 + sched.length < 4294967296) :
     let s := crun (CSt.init c0) sched
     vals s.adds = List.range' (c0 + 1) s.adds.length ∧
     (∀ x ∈ s.wire, x ∈ s.adds) ∧
